@@ -69,10 +69,11 @@ TAG_NPFLOAT = (True, True)
 class Num:
     """Symbolic number: z3 arithmetic term + python-level type tag."""
 
-    __slots__ = ("v", "tag")
+    __slots__ = ("v", "tag", "rounded")
 
-    def __init__(self, v, tag=None):
+    def __init__(self, v, tag=None, rounded=False):
         self.v = v
+        self.rounded = rounded  # the value went through a float conversion of a literal
         if tag is None:
             tag = TAG_PYINT if z3.is_int(v) else TAG_PYFLOAT
         self.tag = tag
